@@ -874,11 +874,11 @@ func check(prop, tier string, seed int64, replay string, budget time.Duration, w
 // ---- auxiliary race-detector mode (C13) --------------------------------------
 
 type raceReport struct {
-	Key   string
-	Text  string
-	Seed  int64
-	Run   int
-	Repo  bool
+	Key  string
+	Text string
+	Seed int64
+	Run  int
+	Repo bool
 }
 
 func topRepoFunc(stack string) (string, bool) {
@@ -1128,31 +1128,31 @@ func buildEvidence(prop, tier string, seed int64, d *Describe, results []RunResu
 		notInj = []string{"torn or lost writes after power loss", "fsync ordering", "disk full / short writes / EIO", "wall clock moving backwards (not expressible in a synctest bubble)"}
 	}
 	cov := map[string]interface{}{
-		"evaluations":          evals,
-		"distinct_nontrivial":  len(sigs),
-		"distinct_signatures":  len(allSigs),
-		"rule":                 d.Rule,
-		"samples":              samples,
-		"distinct_states":      len(states),
-		"states_measure":       "hash of the canonical model/snapshot state noted by the property at its check points",
-		"simulated_time":       fmt.Sprintf("%.0fs", simSeconds),
-		"simulated_seconds":    simSeconds,
-		"runs_per_hour":        int64(perHour),
-		"seeds":                []int64{seed},
-		"seeds_per_hour":       "one VERIF_SEED per invocation; every run index of it is an independent PRNG stream (runs_per_hour)",
-		"worker_processes":     workers,
-		"decisions_drawn":      draws,
-		"preemptions":          preempts,
-		"faults_fired":         faults,
-		"faults_not_injected":  notInj,
-		"probes_hit":           probes,
-		"hook_sites_reached":   sites,
-		"components_real":      d.Real,
-		"components_stub":      d.Stub,
-		"violations_reported":  reported,
-		"flavour":              d.Flavour,
-		"exhaustive":           false,
-		"technique":            "deterministic simulation with fault injection (seeded search over schedules and fault sequences)",
+		"evaluations":         evals,
+		"distinct_nontrivial": len(sigs),
+		"distinct_signatures": len(allSigs),
+		"rule":                d.Rule,
+		"samples":             samples,
+		"distinct_states":     len(states),
+		"states_measure":      "hash of the canonical model/snapshot state noted by the property at its check points",
+		"simulated_time":      fmt.Sprintf("%.0fs", simSeconds),
+		"simulated_seconds":   simSeconds,
+		"runs_per_hour":       int64(perHour),
+		"seeds":               []int64{seed},
+		"seeds_per_hour":      "one VERIF_SEED per invocation; every run index of it is an independent PRNG stream (runs_per_hour)",
+		"worker_processes":    workers,
+		"decisions_drawn":     draws,
+		"preemptions":         preempts,
+		"faults_fired":        faults,
+		"faults_not_injected": notInj,
+		"probes_hit":          probes,
+		"hook_sites_reached":  sites,
+		"components_real":     d.Real,
+		"components_stub":     d.Stub,
+		"violations_reported": reported,
+		"flavour":             d.Flavour,
+		"exhaustive":          false,
+		"technique":           "deterministic simulation with fault injection (seeded search over schedules and fault sequences)",
 	}
 	assumptions := append([]string{"go-ethereum secp256k1, Go 1.26.8 testing/synctest and the harness reference models are trusted", "a clean batch is evidence, not proof: the space of histories, schedules and faults is sampled"}, d.Assumptions...)
 	if n, ok := probes["c05.forks"]; ok {
